@@ -1,9 +1,9 @@
 (** C08 — generated parsers always terminate and never panic.
     This file: the table-driven parser never reaches a panic site on validated tables
     (index out of bounds, unwrap on None, subtraction underflow, "symbol type mismatch", the
-    explicit panic!s).  Termination bounds: see LR/Termination.v when present. *)
+    explicit panic!s).  Termination: LR/Termination.v. *)
 From Coq Require Import List ZArith.
-From LV Require Import LR.Driver LR.Validator LR.Safety LR.Soundness LR.Completeness LR.Locality LR.NoPanic LR.Main.
+From LV Require Import LR.Driver LR.Validator LR.Safety LR.Soundness LR.Completeness LR.Locality LR.NoPanic LR.Termination LR.Main.
 From LV Require Import Lex.Regex Lex.LexModel Lex.LexProps.
 Import ListNotations.
 
@@ -51,3 +51,30 @@ Theorem C08_answers_do_not_depend_on_the_budget : forall A orc, uses_recovery A 
   forall f input r s, drive A orc f input = (r, s) -> r <> RFuel -> forall f', f <= f' -> drive A orc f' input = (r, s).
 Proof. intros A orc Hn. exact (Locality.drive_mono A Hn orc). Qed.
 Print Assumptions C08_answers_do_not_depend_on_the_budget.
+
+(** termination on every input (grammars without error recovery): for any token sequence -- sentences,
+    non-sentences, lexer errors in the stream, unknown tokens -- and any behaviour of fallible actions,
+    a budget exists beyond which the driver never answers "budget exhausted": the loop of
+    Parser::drive, the reductions under one lookahead and the simulation behind the expected-token
+    list all end.  The validator's [terminates] certificate is what carries the argument. *)
+Theorem C08_parser_terminates_on_every_input : forall A C,
+  shape A C = true -> exact A C = true -> terminates A C = true -> uses_recovery A = false ->
+  forall orc input, Forall (item_ok A) input ->
+  exists n, forall fuel, n <= fuel -> fst (drive A orc fuel input) <> RFuel.
+Proof. exact parser_terminates. Qed.
+Print Assumptions C08_parser_terminates_on_every_input.
+
+(* the reductions prescribed for one lookahead on any stack the parser can have built end within an
+   explicit bound: ((n_states + 1) + depth * (n_states + 2)) * (c_F + 1) + c_F + 1 steps *)
+Theorem C08_reduce_phase_is_bounded : forall A C,
+  shape A C = true -> terminates A C = true ->
+  forall a l, la_ok A a -> SLinked A C l -> siter A (bound A C (length l)) a l = None.
+Proof. exact reduce_phase_halts. Qed.
+Print Assumptions C08_reduce_phase_is_bounded.
+
+(* the simulation used for expected tokens ends within the same bound *)
+Theorem C08_accepts_is_bounded : forall A C,
+  shape A C = true -> exact A C = true -> terminates A C = true ->
+  forall l a f, SLinked A C l -> la_ok A a -> bound A C (length l) <= f -> accepts A f l a <> AFuel.
+Proof. exact accepts_bounded. Qed.
+Print Assumptions C08_accepts_is_bounded.
